@@ -137,7 +137,8 @@ class C14(Check):
                 if 'replace' in kind:
                     edits['replace'] = {c0: f'({c0}*1.5)'}
                 if kind == 'remove':
-                    edits['remove'] = [f'*{c0}', f'{c0}*']
+                    # a whole additive term goes: the variables that only occurred in it drop out of the derived operator
+                    edits['remove'] = [{'lin': '+ u', 'leak': '+ b*u', 'sat': '+ b'}.get(lib, '+ u')]
                 if variables is not None and rng.random() < 0.5 and kind != 'add':
                     variables = None
                 if rng.random() < 0.4:
